@@ -18,7 +18,8 @@ EXTENDS Domain, SequencesExt
 \* ------------------------------------------------------------------------
 OptTyp(t)  == t \in {"OptStr", "OptInt", "OptBool", KwTyp}
 \* C04: "restricted to types argparse can express (scalars, Optional/List/Literal of scalars, kwargs-named dict)"
-ArgExpr(t) == t \in {"none", "str", "int", "float", "bool", "OptStr", "OptInt", "OptBool", "ListStr", "LitStr", KwTyp}
+ArgExpr(t) == t \in {"none", "str", "int", "float", "bool", "OptStr", "OptInt", "OptBool", "ListStr", "LitStr", KwTyp,
+                      "Opt:float", "Opt:ListStr", "Opt:LitStr"}
 \* C01: without default text, defaults are by construction not in a docstring
 DefExpr(k, dd) == k \notin DocKind \/ dd
 
@@ -29,26 +30,36 @@ DefExpr(k, dd) == k \notin DocKind \/ dd
 \* N4: absent type => `object` in a class; absent / inexpressible type => `str` in argparse
 FillTyp(k, b) ==
      (IF TypeOfDef(b.def) # "none" THEN {TypeOfDef(b.def)} ELSE {})
+  \cup (IF b.def = "none" THEN {"NoneType"} ELSE {})          \* N3 applied to a None default
   \cup (IF k = "class" THEN {"object"} ELSE {})
   \cup (IF k = "argparse" THEN {"str", "OptStr"} ELSE {})
 
+\* N8: argparse: not required <=> Optional[..]; a parameter whose default is None is not required, so its type may come
+\*     back wrapped in Optional[..]
+OptBase == {"float", "ListStr", "LitStr", "UnionIntStr", "TupleIntStr", "Dotted", "object", "Any", "dict", "NoneType", "other", "none"}
+OptOf(t) == CASE t = "int" -> "OptInt" [] t = "str" -> "OptStr" [] t = "bool" -> "OptBool"
+              [] t \in {"OptInt", "OptStr", "OptBool", KwTyp} -> t
+              [] t \in {"Opt:" \o x : x \in OptBase} -> t           \* already wrapped
+              [] OTHER -> "Opt:" \o t
 A_Typ(k, b) ==
   IF b.typ # "none"
     THEN {b.typ} \cup (IF k = "argparse" /\ ~ArgExpr(b.typ) THEN {"str", "OptStr"} ELSE {})
+                 \cup (IF k = "argparse" /\ b.def = "none" THEN {OptOf(b.typ)} ELSE {})
     ELSE {"none"} \cup FillTyp(k, b)
 
 \* N5: class / argparse: a parameter without default acquires the zero value of its type, or None
 \* N6: function / method: a parameter without default is emitted `=None`
 \* N7: a ...kwargs parameter has default None
 FillDef(k, b) ==
-     (CASE k \in {"class", "argparse"} -> {Zero(b.typ), "none"}
+     (CASE k \in {"class", "argparse"} -> {Zero(t) : t \in A_Typ(k, b)} \cup {"none"}   \* zero of the (possibly filled) type
         [] k \in FunKind               -> {"none"}
         [] OTHER                       -> {})
   \cup (IF IsKw(b) THEN {"none"} ELSE {})
 
+\* argparse cannot tell `default=None` from no default: an explicit None may come back as absent
 A_Def(k, dd, b) ==
   IF b.def # "absent"
-    THEN IF DefExpr(k, dd) THEN {b.def}
+    THEN IF DefExpr(k, dd) THEN {b.def} \cup (IF k = "argparse" /\ b.def = "none" THEN {"absent"} ELSE {})
          ELSE {"absent"} \cup (IF IsKw(b) THEN {"none"} ELSE {})
     ELSE {"absent"} \cup FillDef(k, b)
 
@@ -81,7 +92,10 @@ AllowedSlots(k, dd, b) ==
 R_Present(k, b) == IF b.present /\ k = "argparse" /\ b.def = "absent" THEN BOOLEAN ELSE {b.present}
 R_Typ(k, b)     == IF b.typ # "none" THEN {b.typ}
                    ELSE {"none"} \cup (IF k = "class" THEN {"object"} ELSE {})
-R_Def(k, dd, b) == IF b.def # "absent" /\ ~DefExpr(k, dd) THEN {"absent"} ELSE {b.def}
+\* C02: the return entry is carried as the reserved attribute `return_type`; like every attribute it needs a value,
+\* so N5 (zero value of its type, or None) applies to it as well
+R_Def(k, dd, b) == IF b.def # "absent" /\ ~DefExpr(k, dd) THEN {"absent"}
+                   ELSE {b.def} \cup (IF k = "class" /\ b.def = "absent" THEN {Zero(b.typ), "none"} ELSE {})
 
 RetOK(k, dd, b, a) ==
   /\ a.present \in R_Present(k, b)
@@ -135,9 +149,10 @@ Detect(f) == IF f.rest THEN "rest" ELSE IF f.google THEN "google" ELSE "numpydoc
 \* class attribute
 C_Ann(s) == IF s.typ # "none" THEN {s.typ}
             ELSE {"object"} \cup (IF TypeOfDef(s.def) # "none" THEN {TypeOfDef(s.def)} ELSE {})
+                            \cup (IF s.def = "none" THEN {"NoneType"} ELSE {})
 C_Val(s) == IF s.def # "absent" THEN {s.def} ELSE {Zero(s.typ), "none"}
 C_RetAnn(r) == IF r.typ # "none" THEN {r.typ} ELSE {"object"}
-C_RetVal(r) == IF r.def = "code" THEN {"code", "codeQ", "codeBare"} ELSE {"none"}
+C_RetVal(r) == IF r.def = "code" THEN {"code", "codeQ", "codeBare"} ELSE {"none", Zero(r.typ)}
 \* function signature
 F_Kind(kwonly, s) == IF IsKw(s) THEN "kwarg" ELSE IF kwonly THEN "kwonly" ELSE "pos"
 F_Ann(inline, s)  == IF IsKw(s) THEN {"empty", KwTyp}
